@@ -924,4 +924,89 @@ func (*ArrayListOfValueIterator).NextValue
   ensures yields: old(l.Index) < len(*l.ArrayList) ==> ret1 == Undefined && ret0 == elem(*l.ArrayList, old(l.Index)) && l.Index == old(l.Index) + 1
   ensures stops: old(l.Index) >= len(*l.ArrayList) ==> ret0 == Undefined && ret1 != Undefined && l.Index == old(l.Index)
   ensures list: *l.ArrayList == old(*l.ArrayList)
+
+// l + other: a NEW list (its storage is not shared with either operand, so later
+// mutation of an operand cannot change the sum) holding the elements of l then of other
+spec fn isList(v Value) bool = v.flag == REFERENCE_FLAG && v.data == tagof(*ArrayListOfValue) && v.ptr != nil
+spec fn isTuple(v Value) bool = v.flag == REFERENCE_FLAG && v.data == tagof(*ArrayTupleOfValue) && v.ptr != nil
+
+// interface contract of every tuple/list implementation: a length is a slice length
+func (ArrayTuple).Length
+  trusted
+  assigns nothing
+  ensures 0 <= ret && ret <= 72057594037927936
+
+func (*ArrayListOfValue).Concat
+  props C24
+  partial
+  requires l != nil && wfv(other)
+  assigns nothing
+  ensures listlen: isList(other) ==> ret1 == Undefined && ret0 != nil && len(*ret0) == len(*l) + len(*(*ArrayListOfValue)(other.ptr))
+  ensures fresh: isList(other) || isTuple(other) ==> fresh(ret0) && freshSlice(*ret0)
+  ensures left: isList(other) || isTuple(other) ==> forall k int :: 0 <= k && k < len(*l) ==> elem(*ret0, k) == old(elem(*l, k))
+  ensures right: isList(other) ==> forall k int :: 0 <= k && k < len(*(*ArrayListOfValue)(other.ptr)) ==> elem(*ret0, len(*l) + k) == old(elem(*(*ArrayListOfValue)(other.ptr), k))
+  ensures tuplelen: isTuple(other) ==> ret1 == Undefined && ret0 != nil && len(*ret0) == len(*l) + len(*(*ArrayTupleOfValue)(other.ptr))
+
+// ---- tuples: same sequence model --------------------------------------------------
+func (*ArrayTupleOfValue).Get
+  props C24
+  requires t != nil
+  assigns nothing
+  ensures ok: inRange(index, len(*t)) ==> ret1 == Undefined && ret0 == elem(*t, normIdx(index, len(*t)))
+  ensures err: !inRange(index, len(*t)) ==> ret0 == Undefined && isErr(ret1, IndexErrorClass)
+
+func (*ArrayTupleOfValue).Set
+  props C24
+  requires t != nil
+  ensures hdr: *t == old(*t)
+  ensures ok: inRange(index, len(*t)) ==> ret == Undefined && elem(*t, normIdx(index, len(*t))) == val
+  ensures others: forall k int :: 0 <= k && k < len(*t) && !(inRange(index, len(*t)) && k == normIdx(index, len(*t))) ==> elem(*t, k) == old(elem(*t, k))
+  ensures err: !inRange(index, len(*t)) ==> isErr(ret, IndexErrorClass)
+
+func (*ArrayTupleOfValue).Subscript
+  props C24
+  requires t != nil && wfv(key)
+  assigns nothing
+  ensures ok: key.flag == SMALL_INT_FLAG && inRange(wrapS64(key.data), len(*t)) ==> ret1 == Undefined && ret0 == elem(*t, normIdx(wrapS64(key.data), len(*t)))
+  ensures err: key.flag == SMALL_INT_FLAG && !inRange(wrapS64(key.data), len(*t)) ==> ret0 == Undefined && isErr(ret1, IndexErrorClass)
+  ensures big: isBig(key) && !fitsSmall(bigval(key.ptr)) ==> ret0 == Undefined && isErr(ret1, IndexErrorClass)
+
+func (*ArrayTupleOfValue).SubscriptSet
+  props C24
+  requires t != nil && wfv(key)
+  ensures hdr: *t == old(*t)
+  ensures ok: key.flag == SMALL_INT_FLAG && inRange(wrapS64(key.data), len(*t)) ==> ret == Undefined && elem(*t, normIdx(wrapS64(key.data), len(*t))) == val
+  ensures others: key.flag == SMALL_INT_FLAG ==> forall k int :: 0 <= k && k < len(*t) && !(inRange(wrapS64(key.data), len(*t)) && k == normIdx(wrapS64(key.data), len(*t))) ==> elem(*t, k) == old(elem(*t, k))
+  ensures err: key.flag == SMALL_INT_FLAG && !inRange(wrapS64(key.data), len(*t)) ==> isErr(ret, IndexErrorClass)
+
+func (*ArrayTupleOfValue).Append
+  props C24
+  requires t != nil
+  ensures len: len(*t) == old(len(*t)) + len(elements)
+  ensures prefix: forall k int :: 0 <= k && k < old(len(*t)) ==> elem(*t, k) == old(elem(*t, k))
+  ensures suffix: forall k int :: 0 <= k && k < len(elements) ==> elem(*t, old(len(*t)) + k) == old(elem(elements, k))
+
+func (*ArrayTupleOfValue).Expand
+  props C24
+  requires t != nil && newElements <= 72057594037927936
+  ensures len: len(*t) == old(len(*t)) + ite(newElements < 1, 0, newElements)
+  ensures prefix: forall k int :: 0 <= k && k < old(len(*t)) ==> elem(*t, k) == old(elem(*t, k))
+  ensures fill: forall k int :: old(len(*t)) <= k && k < len(*t) ==> elem(*t, k) == Nil
+  loop 1
+    invariant 0 <= range_idx && range_idx <= newElements
+    invariant len(newCollection) == old(len(*t)) + range_idx && cap(newCollection) >= old(len(*t)) + newElements
+    invariant forall k int :: 0 <= k && k < old(len(*t)) ==> elem(newCollection, k) == old(elem(*t, k))
+    invariant forall k int :: old(len(*t)) <= k && k < len(newCollection) ==> elem(newCollection, k) == Nil
+    invariant *t == old(*t)
+    invariant sliceptr(newCollection) == sliceptr(*t) || freshSlice(newCollection)
+    invariant forall k int :: 0 <= k && k < old(len(*t)) ==> elem(*t, k) == old(elem(*t, k))
+    decreases newElements - range_idx
+
+func (*ArrayTupleOfValue).AppendAtInt
+  props C24
+  requires t != nil && index < 72057594037927936
+  ensures neg: index < 0 ==> ret != Undefined && *t == old(*t)
+  ensures set: index >= 0 ==> ret == Undefined && elem(*t, index) == val && len(*t) == ite(index >= old(len(*t)), index + 1, old(len(*t)))
+  ensures prefix: index >= 0 ==> forall k int :: 0 <= k && k < old(len(*t)) && k != index ==> elem(*t, k) == old(elem(*t, k))
+  ensures gap: index >= 0 ==> forall k int :: old(len(*t)) <= k && k < index ==> elem(*t, k) == Nil
 @*/
